@@ -15,7 +15,7 @@ from .. import cover, gen
 LEVEL = 'exploration'
 JOBS = {'quick': 4, 'thorough': 16}
 REQUIRED_MONITORS = ('alignment_postcondition', 'repeat_bit_identical', 'caller_objects_unchanged', 'repeat_in_other_interpreter')
-REQUIRED_CLASSES = ('mobile:collinear-neighbours', 'session:re-aligned', 'session:molecule-replaced', 'session:multi-residue', 'sizes:start-smaller', 'sizes:start-larger', 'sizes:tie', 'mobile:tree', 'mobile:cyclic',
+REQUIRED_CLASSES = ('session:stored-molecule-reshaped-in-place', 'mobile:collinear-neighbours', 'session:re-aligned', 'session:molecule-replaced', 'session:multi-residue', 'sizes:start-smaller', 'sizes:start-larger', 'sizes:tie', 'mobile:tree', 'mobile:cyclic',
                     'mobile:one-atom', 'hydrogens:ignored', 'hydrogens:kept', 'restraints:none', 'restraints:some',
                     'types:(0,)', 'types:(1,)', 'types:(2,)', 'types:(0, 1)', 'types:default', 'shipped', 'end:one-atom')
 RULE = ('alignments over (start, end) molecule pairs: sizes 1..40 in both orders and ties, mobile molecule a random tree or a '
@@ -371,7 +371,14 @@ def run_session(ctx, case):
     ops = []
     try:
         for step in range(int(rng.integers(2, 5))):
-            op = 'first' if step == 0 else ['again', 'replace-start', 'replace-end', 'replace-both'][int(rng.integers(0, 4))]
+            op = 'first' if step == 0 else ['again', 'replace-start', 'replace-end', 'replace-both', 'reshape-stored'][int(rng.integers(0, 5))]
+            if op == 'reshape-stored':
+                # the molecules the Alignment holds are live objects: one of them gets the coordinates of another frame
+                # (other bond lengths) assigned in place; "initial" is what it looks like when the alignment starts
+                which = ali.start if rng.random() < 0.5 else ali.end
+                other = (conf_s if which is ali.start else conf_e)()
+                which.atoms_positions = np.array(other.atoms_positions)
+                ctx.hit('session:stored-molecule-reshaped-in-place')
             held = {}
             if op in ('replace-start', 'replace-both'):
                 held['start'] = conf_s()
@@ -405,7 +412,7 @@ def run_session(ctx, case):
                     ctx.violation(f'caller-molecule-modified:{k}', f'the {k} Molecule assigned to a used Alignment was modified', witness=w)
             if op == 'again':
                 ctx.hit('session:re-aligned')
-            elif op != 'first':
+            elif op not in ('first', 'reshape-stored'):
                 ctx.hit('session:molecule-replaced')
             if nres > 1:
                 ctx.hit('session:multi-residue')
